@@ -1,4 +1,5 @@
-//! Program text generator and layout renderer for the file-load simulator.
+//! Program text generator and layout renderer for the file-load simulator (also used by the
+//! Miri corpus to drive the parsers).
 //!
 //! A program is a list of rule texts, each accepted by suiron's parse_rule
 //! (candidates that the parser rejects or panics on are dropped — what the
@@ -8,9 +9,9 @@
 //! that the oracle can say what a truncated file should contain.
 
 use serde::{Deserialize, Serialize};
-use simcore::rng::Rng;
+use crate::rng::Rng;
 
-const ATOMS: [&str; 12] = ["a", "b", "c", "Alfred", "Edward", "red apple", "x1", "harold_2", "north", "pie", "café", "Æthelstan"];
+const ATOMS: [&str; 15] = ["a", "b", "c", "Alfred", "Edward", "red apple", "x1", "harold_2", "north", "pie", "café", "Æthelstan", "Henry V", "Mr T", "Harold II"];
 const PREDS: [&str; 8] = ["f", "g", "parent", "loves", "edge", "q", "size", "kind"];
 const VARS: [&str; 5] = ["$X", "$Y", "$Z", "$Who", "$T"];
 
@@ -25,8 +26,10 @@ fn var(rng: &mut Rng) -> String {
 /// A term; `floats` allows float literals (inside parentheses they are harmless; the caller
 /// decides whether they may appear at bracket depth 0).
 fn term(rng: &mut Rng, depth: usize, floats: bool) -> String {
-    let w: [u64; 7] = [6, 3, if floats { 2 } else { 0 }, 5, if depth > 0 { 2 } else { 0 }, if depth > 0 { 2 } else { 0 }, 1];
+    let w: [u64; 8] = [6, 3, if floats { 2 } else { 0 }, 5, if depth > 0 { 2 } else { 0 }, if depth > 0 { 2 } else { 0 }, 1, if floats { 1 } else { 0 }];
     match rng.weighted(&w) {
+        // a quoted string (only where the caller is inside parentheses: `floats` marks that)
+        7 => format!("\"{}\"", rng.pick(&["Hello, world", "yes", "a, b, c", "one. two", "x; y"])),
         0 => atom(rng),
         1 => rng.range(0, 40).to_string(),
         2 => format!("{}.{}", rng.range(0, 9), rng.range(1, 99)),
